@@ -22,7 +22,9 @@ def run(ctx, chk):
     where0 = m.dispatch.where(0)
     trans, values, passthrough, delegates = m.fsm_tables(chk)
     ctor, fields, init = m.initial_state(chk)
-    if fields is None or init is None:
+    if init is not None and init[1] is None:
+        init = (init[0], values.get(init[0]))
+    if fields is None or init is None or init[1] is None:
         chk.missing('C09.Q1', 'constructor state of the updater')
         return
     bound_f, asof_f = m.field_of.get(2), m.field_of.get(0)
